@@ -274,6 +274,15 @@ func c01Stress(c *mon.Ctx, r *mon.Rand) {
 		for j := 0; j < perScope; j++ {
 			name := fmt.Sprintf("c%d", j)
 			w := k % nWorkers
+			if withSan && j%2 == 1 {
+				// requested under a spelling the sanitizer rewrites (twice, under two
+				// spellings): delivered under the sanitized name only
+				name = fmt.Sprintf("c_%d", j)
+				sc.Counter(fmt.Sprintf("c:%d", j))
+				all[w] = append(all[w], &ctr{c: sc.Counter(fmt.Sprintf("c %d", j)), name: fmt.Sprintf("s%d.%s", s, name)})
+				k++
+				continue
+			}
 			all[w] = append(all[w], &ctr{c: sc.Counter(name), name: fmt.Sprintf("s%d.%s", s, name)})
 			k++
 		}
@@ -288,6 +297,11 @@ func c01Stress(c *mon.Ctx, r *mon.Rand) {
 		whsum[w] = make([]int64, nHist)
 		sc := root.SubScope(fmt.Sprintf("hs%d", w))
 		for k := range whist[w] {
+			if withSan && k%2 == 1 {
+				sc.Histogram(fmt.Sprintf("h%d:", k), tally.ValueBuckets{})
+				whist[w][k] = sc.Histogram(fmt.Sprintf("h%d ", k), tally.ValueBuckets{})
+				continue
+			}
 			whist[w][k] = sc.Histogram(fmt.Sprintf("h%d", k), tally.ValueBuckets{})
 		}
 	}
@@ -425,7 +439,11 @@ func c01Stress(c *mon.Ctx, r *mon.Rand) {
 		}
 		for w := range whist {
 			for k := range whist[w] {
-				a := agg[mon.BucketKeyV(fmt.Sprintf("hs%d.h%d", w, k), nil, -math.MaxFloat64, math.MaxFloat64)]
+				hname := fmt.Sprintf("hs%d.h%d", w, k)
+				if withSan && k%2 == 1 {
+					hname += "_"
+				}
+				a := agg[mon.BucketKeyV(hname, nil, -math.MaxFloat64, math.MaxFloat64)]
 				if a.Sum != whsum[w][k] {
 					c.Violation("conservation-histogram", map[string]interface{}{"why": fmt.Sprintf("histogram hs%d.h%d: %d samples delivered, %d recorded before Close", w, k, a.Sum, whsum[w][k]), "case": desc})
 				}
@@ -549,8 +567,50 @@ func c01FirstSamplesRace(c *mon.Ctx, r *mon.Rand) {
 		}
 		wg.Wait()
 	}
+	// the same with the goroutines obtaining the metric themselves: the first
+	// requests for one name race each other, and whichever object each caller is
+	// handed, its sample must be delivered
+	const obtainRounds = 120
+	sub := root.SubScope("obtain")
+	for k := 0; k < obtainRounds; k++ {
+		hn, cn := fmt.Sprintf("oh%d", k), fmt.Sprintf("oc%d", k)
+		var wg sync.WaitGroup
+		var ready int32
+		for g := 0; g < G; g++ {
+			wg.Add(1)
+			go func(g int) {
+				defer wg.Done()
+				atomic.AddInt32(&ready, 1)
+				for n := 0; atomic.LoadInt32(&ready) < int32(G); n++ {
+					if n > 2000 {
+						runtime.Gosched()
+					}
+				}
+				if (g+k)%2 == 0 {
+					sub.Histogram(hn, tally.ValueBuckets{10}).RecordValue(1)
+					sub.Counter(cn).Inc(1)
+				} else {
+					sub.Counter(cn).Inc(1)
+					sub.Histogram(hn, tally.ValueBuckets{10}).RecordValue(1)
+				}
+			}(g)
+		}
+		wg.Wait()
+		if k%16 == 15 {
+			tally.VerifReportPass(root)
+		}
+	}
 	tally.VerifReportPass(root)
 	_, agg, _ := rec.Snapshot()
+	for k := 0; k < obtainRounds; k++ {
+		if a := agg[mon.BucketKeyV(fmt.Sprintf("obtain.oh%d", k), nil, -math.MaxFloat64, 10)]; a.Sum != int64(G) {
+			c.Violation("conservation-first-use", map[string]interface{}{"why": fmt.Sprintf("histogram obtain.oh%d: %d samples delivered, %d goroutines requested it for the first time at the same moment and recorded one sample each into what they were handed", k, a.Sum, G), "cached": cached})
+		}
+		if a := agg[mon.IdentKey(fmt.Sprintf("obtain.oc%d", k), nil)]; a.Sum != int64(G) {
+			c.Violation("conservation-first-use", map[string]interface{}{"why": fmt.Sprintf("counter obtain.oc%d: %d delivered, %d goroutines requested it for the first time at the same moment and incremented what they were handed once", k, a.Sum, G), "cached": cached})
+		}
+	}
+	c.Event("first-request-races", obtainRounds)
 	for k := 0; k < rounds; k++ {
 		if a := agg[mon.BucketKeyV(fmt.Sprintf("fh%d", k), nil, -math.MaxFloat64, 10)]; a.Sum != int64(G) {
 			c.Violation("conservation-first-use", map[string]interface{}{"why": fmt.Sprintf("histogram fh%d: %d samples delivered, %d goroutines recorded the first samples of its bucket at the same moment", k, a.Sum, G), "cached": cached})
